@@ -472,6 +472,21 @@ func checkReplayNoDirWrite(c *Ctx) {
 					if al, isAl := com.Args[0].(*ssa.Alloc); isAl && typeIs(al.Type(), pMigrate, "MemDir") {
 						ok2 = true
 					}
+					// the variable is captured by a closure: a load of a cell that only ever holds such allocations
+					if ld, isLoad := com.Args[0].(*ssa.UnOp); isLoad && ld.Op == token.MUL {
+						if cell, isCell := ld.X.(*ssa.Alloc); isCell && cell.Referrers() != nil {
+							stores, good := 0, 0
+							for _, ref := range *cell.Referrers() {
+								if st, isStore := ref.(*ssa.Store); isStore && st.Addr == cell {
+									stores++
+									if al, isAl := st.Val.(*ssa.Alloc); isAl && typeIs(al.Type(), pMigrate, "MemDir") {
+										good++
+									}
+								}
+							}
+							ok2 = stores > 0 && stores == good
+						}
+					}
 				}
 				c.Check("R14d", f.String()+"|"+name, in.Pos(), ok2, "%s on a directory is reachable from Executor.Replay (in %s): replay must never write the directory", name, f.String())
 			}
